@@ -185,7 +185,8 @@ def run(report, tier, seed):
     # concrete probes (termination, odd inputs): NOT solver verdicts
     probes = ["='" + 'a' * 31 + "'!A1+1", "='" + 'b' * 40, '=SUM(Z!A1)', '="it' + "'" + 's"', '=COUNT((1))', '=A1:B', '=COUNTIFS(A1:B1,"a*",A1:B1,"b")', '=1/0', '=A1+', '=A1%B1',
               '=Total_Revenue_For_The_Fiscal_Year_2023_Q4_Grand_Total*2', '=ABCDEFGHIJKLMNOPQRSTUVWXYZABCDEFGHIJKLMN(1)', '=1' + '0' * 40 + '+A1', '=A1+' + 'Z' * 48, '=SUM(' + 'x_' * 24 + ')',
-              '=' + 'A1.' * 16 + 'A1', "='" + "a'" * 20 + "'!A1"]
+              '=' + 'A1.' * 16 + 'A1', "='" + "a'" * 20 + "'!A1", '="abc' + 'd' * 40, '=SUM(1,"x' + 'y' * 35 + ')', '=A1&"' + ' z' * 20,
+              '=COUNTIFS(A1:A3,"<-05")', '=COUNTIFS(A1:A3,">=-007.50")', '=SUMIF(A1:A3,"<>-0",B1:B3)']
     for ptxt in probes:
         out = timed_probe(ptxt)
         ok = out.startswith("('ok'") or out.startswith("('library'")
